@@ -69,14 +69,14 @@ func (o op) String() string {
 
 // event is one whole block: 0..2 transactions and the block's time step.
 type event struct {
-	ops  []op
-	days int // 0 = the default 17 s step; n > 0 = n days and one hour
+	ops   []op
+	hours int // 0 = the default 17 s step; n > 0 = a step of n hours
 }
 
 func (e event) String() string {
 	var p []string
-	if e.days > 0 {
-		p = append(p, fmt.Sprintf("+%dd", e.days))
+	if e.hours > 0 {
+		p = append(p, fmt.Sprintf("+%dh", e.hours))
 	}
 	for _, o := range e.ops {
 		p = append(p, o.String())
@@ -155,8 +155,8 @@ var worlds = []*wdef{
 			ev(vote("A", v1, true)),
 			ev(vote("A", v2, true)),
 		},
-		depth: map[string]int{"quick": 4, "thorough": 5},
-		share: 0.05,
+		depth: map[string]int{"quick": 5, "thorough": 6},
+		share: 0.1,
 	},
 	{
 		// who may open an allegation, against whom, under which request id
@@ -179,15 +179,15 @@ var worlds = []*wdef{
 			ev(unstake(v4, -1)),
 			ev(alleg("E", v1, v4)), // possibly against a validator that has left
 		},
-		depth: map[string]int{"quick": 3, "thorough": 4},
-		share: 0.12,
+		depth: map[string]int{"quick": 3, "thorough": 5},
+		share: 0.2,
 	},
 	{
 		name: "tally67", nVals: 4, votePct: 67,
 		prefix:   seq(quiet(2), []event{ev(alleg("A", v1, v3))}),
 		alphabet: tallyAlphabet(),
-		depth:    map[string]int{"quick": 3, "thorough": 5},
-		share:    0.12,
+		depth:    map[string]int{"quick": 4, "thorough": 7},
+		share:    0.3,
 	},
 	{
 		// three validators: thresholds 1.5 / 2
@@ -204,8 +204,8 @@ var worlds = []*wdef{
 			ev(unstake(v2, -1)),
 			ev(vote("A", v1, true), vote("A", v2, true)),
 		},
-		depth: map[string]int{"quick": 4, "thorough": 5},
-		share: 0.15,
+		depth: map[string]int{"quick": 5, "thorough": 7},
+		share: 0.3,
 	},
 	{
 		// two allegations against different validators open at once: two verdicts in one block, votes of
@@ -225,8 +225,8 @@ var worlds = []*wdef{
 			ev(vote("A", v2, true), vote("B", v1, true)),
 			ev(vote("A", v1, true), vote("B", v2, true)),
 		},
-		depth: map[string]int{"quick": 4, "thorough": 5},
-		share: 0.25,
+		depth: map[string]int{"quick": 5, "thorough": 7},
+		share: 0.5,
 	},
 	{
 		// life of a frozen validator: V3 unstaked a part earlier (so that something is withdrawable and
@@ -239,7 +239,8 @@ var worlds = []*wdef{
 		}),
 		alphabet: []event{
 			ev(),
-			{days: 1},
+			{hours: 23}, // just below the release time of one day
+			{hours: 25}, // past it
 			ev(release(v3)),
 			ev(stake(v3, 100000)),
 			ev(unstake(v3, 100000)),
@@ -250,14 +251,14 @@ var worlds = []*wdef{
 			ev(alleg("D", v1, v3)),  // a new allegation against the frozen (or released) validator
 			ev(release(v3), stake(v3, 100000)),
 		},
-		depth: map[string]int{"quick": 4, "thorough": 6},
-		share: 0.4,
+		depth: map[string]int{"quick": 5, "thorough": 7},
+		share: 0.6,
 	},
 	{
 		name: "tally50", nVals: 4, votePct: 50,
 		prefix:   seq(quiet(2), []event{ev(alleg("A", v1, v3))}),
 		alphabet: tallyAlphabet(),
-		depth:    map[string]int{"quick": 4, "thorough": 5},
+		depth:    map[string]int{"quick": 5, "thorough": 7},
 		share:    1.0,
 	},
 }
